@@ -591,6 +591,18 @@ class Judge(object):
                             '%s reported generation %s for %s, the stored generation ends at %s '
                             '(schedule %s)' % (tags[i], j['resource_provider_generation'], u,
                                                dump.providers[u]['gen'], sched))
+        # a request that names a generation the provider has left behind is refused for exactly
+        # that reason, whatever else is going on (absolute rule: the differential rules above
+        # compare the implementation with itself)
+        if self.prop == 'C05':
+            for i in range(n):
+                if '(stale)' in tags[i] and statuses[i] == 409 and \
+                        rq.ver(reqs_[i].get('mv')) >= (1, 23) and \
+                        ex.resps[i].err_code() != 'placement.concurrent_update':
+                    add('c05-stale-code:%s' % tags[i],
+                        '%s was refused with 409 but error code %r instead of '
+                        'placement.concurrent_update (schedule %s)' % (
+                            tags[i], ex.resps[i].err_code(), sched))
         # generation rules
         if self.prop in ('C05', 'C07'):
             same = {}
